@@ -79,8 +79,8 @@ Definition is_in (id : N) (l : list N) : bool := existsb (N.eqb id) l.
      7 a plan the model resumes was closed with reason ExceedRecovery instead
      8 the Vault implements storage.Recovery but was used before Recovery() had been called
      9 the decision differs between now = k_t0 and now = k_t1 (inconclusive: New took too long)
-    10 the Update* calls that closed an aged plan are not the model's write list (the plan row, then every
-       other row in walk order) *)
+    10 the Update* calls that closed an aged plan are not the model's write list (every row but the plan's in
+       walk order, then the plan row) *)
 (* the stored reason became ExceedRecovery: only start-up recovery's agedOut writes that reason *)
 Definition closed_by_recovery (p : plan) (o : pobs) : bool :=
   reason_eqb (o_reason o) FRExceedRecovery && negb (reason_eqb (p_reason p) FRExceedRecovery).
@@ -110,7 +110,7 @@ Definition plan_code (c : rcase) (resumed : list N) (p0 p p' : plan) (o : pobs) 
                 && reason_eqb (p_reason p') (o_reason o)) then 1
   else if Nat.ltb 0 (o_calls o) then 2
   else if negb touched && Nat.ltb 0 (o_writes o) then 4
-  else if touched && negb (list_eqb Nat.eqb (o_order o) (seq 0 (length (rows_plan p)))) then 10
+  else if touched && negb (list_eqb Nat.eqb (o_order o) (seq 1 (length (rows_plan p) - 1) ++ [0])) then 10
   else 0.
 
 Fixpoint first_code (c : rcase) (resumed : list N) (i : nat) (s0 s s' : list plan) (os : list pobs) : nat * nat :=
@@ -167,10 +167,10 @@ Definition not_running (st : option state) : bool :=
        nothing but states and reason changed
      - Running and live (at k_t1 still): resumed, and not closed as ExceedRecovery
      - the boundary falls inside [k_t0, k_t1]: no verdict *)
-Definition head_is_0 (l : list nat) : bool := match l with 0 :: _ => true | _ => false end.
+Definition last_is_0 (l : list nat) : bool := match rev l with 0 :: _ => true | _ => false end.
 
-(*   - crash during the close (k_crash > 0): "nothing left Running" is not demanded of a close that was cut
-       short; the plan must still be Failed / ExceedRecovery, never executed, and not written again *)
+(*   - crash during the close (k_crash > 0): after the second incarnation the FULL clause holds: Failed /
+       ExceedRecovery, nothing Running, never executed (R10) *)
 Definition mon_plan (c : rcase) (p : plan) (o : pobs) : bool :=
   if k_err c && is_runningb p then Nat.eqb (o_calls o) 0      (* New refused: nothing is executed *)
   else if negb (k_recovery c) || negb (is_runningb p) then
@@ -178,9 +178,10 @@ Definition mon_plan (c : rcase) (p : plan) (o : pobs) : bool :=
   else if is_staleb (k_t0 c) (k_maxage c) p then
     o_same o && reason_eqb (o_reason o) FRExceedRecovery && head_failed (o_states o)
     && Nat.eqb (o_calls o) 0
+    && forallb not_running (o_states o)
     && (match k_crash c with
-        | 0 => forallb not_running (o_states o) && head_is_0 (o_order o)   (* closed plan row first *)
-        | _ => Nat.eqb (o_writes o) 0
+        | 0 => last_is_0 (o_order o)        (* the plan row is the last write of the close *)
+        | _ => true                         (* closed by the first incarnation, the second, or both *)
         end)
   else if negb (is_staleb (k_t1 c) (k_maxage c) p) then
     Nat.ltb 0 (o_calls o + o_writes o) && negb (closed_by_recovery p o || aged_like p o)
